@@ -201,7 +201,7 @@ def observe(O, P, obj, prm, status, p, o):
         bad(('result level names are not obj levels + new parameter levels', repr(list(o.index.names))))
         return ob
     order, pos_o, pos_p = lvl
-    ob.levels = [list(o.index.names)[i] for i in order]
+    ob.levels = list(o.index.names)      # as returned (the keys below are canonicalised to obj levels ++ new prm levels)
     ko = {k: i for i, k in enumerate(O.keys)} if not zero_level_obj else {(): 0}
     kp = {k: i for i, k in enumerate(P.keys)}
     rows = []
